@@ -140,21 +140,22 @@ def code_constants(lo=8, hi=2 ** 19, subpath="", exclude=None):
 POW2_SIZES = (17, 33, 65, 129, 257, 513, 1025)
 
 
-def sizes(dense_to, cap, around_constants=True, pow2=True, minimum=1, subpath=""):
+def sizes(dense_to, cap, around_constants=True, pow2=True, minimum=1, subpath="", exclude="datasets"):
     """size alphabet: every size minimum..dense_to; c-1, c, c+1, c+2, 2c, 2c+1, 3c+1 for every code constant c; 2^k+1;
-    everything capped at `cap` (sizes above the cap are reported by sizes_dropped)"""
+    everything capped at `cap` (sizes above the cap are reported by sizes_dropped).  The dataset loader's constants (file
+    chunk sizes) are left to C19's payload sizes unless exclude=None"""
     s = set(range(minimum, dense_to + 1))
     if pow2:
         s.update(POW2_SIZES)
     if around_constants:
-        for c in code_constants(subpath=subpath):
+        for c in code_constants(subpath=subpath, exclude=exclude):
             s.update([c - 1, c, c + 1, c + 2, 2 * c, 2 * c + 1, 3 * c + 1])
     return sorted(v for v in s if minimum <= v <= cap)
 
 
-def sizes_dropped(dense_to, cap, subpath=""):
+def sizes_dropped(dense_to, cap, subpath="", exclude="datasets"):
     s = set()
-    for c in code_constants(subpath=subpath):
+    for c in code_constants(subpath=subpath, exclude=exclude):
         s.update([c - 1, c, c + 1, c + 2, 2 * c, 2 * c + 1, 3 * c + 1])
     return sorted(v for v in s if v > cap)
 
@@ -193,13 +194,13 @@ def long_values(m, kind):
     raise ValueError(kind)
 
 
-def interesting_indices(m, dense_to=48, subpath="", limit=40):
+def interesting_indices(m, dense_to=48, subpath="", limit=40, exclude="datasets"):
     """all indices of a short array; for a long one the ends and the neighbourhood of the first multiples of every
     power of two >= 8 and of every code constant (where strides, blocks and chunks begin and end)"""
     if m <= dense_to:
         return list(range(m))
     s = {0, 1, 2, m - 3, m - 2, m - 1, m // 2}
-    cs = sorted(set([8, 16, 32, 64, 128, 256, 512, 1024]) | set(code_constants(subpath=subpath)))
+    cs = sorted(set([8, 16, 32, 64, 128, 256, 512, 1024]) | set(code_constants(subpath=subpath, exclude=exclude)))
     for c in cs:
         for k in (1, 2, 3):
             for d in (-1, 0, 1):
